@@ -449,7 +449,8 @@ def run(chk, prog):
                  if st["k"] == "assign" and len(st["lhs"]) == 1 and st["rv"]["k"] in ("ref", "use") and
                  "f:client" in (st["rv"].get("p") or op_place(st["rv"].get("a") or {}) or [])[1:]]
         derived = set(_ff2(g, seeds, [r"Option::<T>::(as_ref|as_mut|as_deref|map|cloned|copied|inspect)$"])[0]) | set(seeds)
-        tests = [o for o in _ot2(g, derived) if o["kind"] in ("Option", "?")]
+        tests = [o for o in _ot2(g) if o["kind"] in ("Option", "?") and
+                 (o["root"] in derived or o["place"][0] in derived or "f:client" in [str(x) for x in o["place"][1:]])]
         ncas = [c for c in g.calls if re.search(r"NoClientAuth::new$", c.path or c.name or "")]
         kids_nca = []
         for ch in prog.children(g0):
